@@ -498,6 +498,12 @@ goroutine, and the caller's own claim when it gives up (`mainAbort`) -/
 theorem C09_source_claim : TV.Gen.Shapes.probe_claim =
     ["claimed.CompareAndSwap(false, true)", "!claimed.CompareAndSwap(false, true)"] := by decide
 
+/-- inside a dial goroutine: the claim, then at once the hand-over into the channel, and only then log and status callback - the
+model's `claim` step is claim + hand-over with nothing in between, which is what lets `mainAbort` take a claimed connection out of
+the channel without waiting on foreign code -/
+theorem C09_source_claim_order : TV.Gen.Shapes.probe_claim_order =
+    ["claimed.CompareAndSwap(false, true)", "resultCh <- conn", "State: ProbeStateWon", "conn.CloseWithError(0, \"race_lost\")"] := by decide
+
 set_option maxRecDepth 16384 in
 /-- the caller's `select`, case by case: `mainRecv`, `mainAbort` (take the claim; if a dial holds it, its connection is in the
 channel or about to be - take it out and close it) and `mainGiveUp` (a claimed connection in the channel is taken first) -/
